@@ -38,6 +38,9 @@ COMPONENTS = {
 }
 
 
+ENDKINDS = ["obj", "obj", "obj", "none", "none", "zero", "false", "empty"]  # None / falsy endmarkers are endmarkers too
+
+
 def gen(rng, tier):
     if rng.random() < 0.2:
         return gen_multi(rng, tier)
@@ -158,7 +161,8 @@ def gen(rng, tier):
     return {"gateways": specs, "actors": actors, "knobs": knobs, "strategy": L.gen_strategy(rng),
             "preempt": L.gen_preempt(rng, 3000), "preempt_at": L.gen_preempt_at(rng, ["setcallback", "_local_close", "_local_receive", "_no_longer_opened", "_finished_receiving", "_thread_receiver", "make_receive_queue"]), "faults": faults, "transport": transport, "backend": backend,
             "gwi": gwi, "mode": "single", "ending": ending, "subject": T, "recv_side": recv_side, "dir": d,
-            "R": R_aid, "S": S_aid, "want_end": want_end, "pre": pre, "pos": pos, "n": n}
+            "R": R_aid, "S": S_aid, "want_end": want_end, "pre": pre, "pos": pos, "n": n,
+            "endmarker_kind": rng.choice(ENDKINDS)}
 
 
 def gen_multi(rng, tier):
@@ -191,7 +195,7 @@ def gen_multi(rng, tier):
     main.append(["terminate", 10.0])
     return {"gateways": specs, "actors": actors, "knobs": knobs, "strategy": L.gen_strategy(rng),
             "preempt": L.gen_preempt(rng, 3000), "preempt_at": L.gen_preempt_at(rng, ["setcallback", "_local_close", "_local_receive", "_no_longer_opened", "_finished_receiving", "_thread_receiver", "make_receive_queue"]), "faults": [], "transport": "popen", "backend": backend, "gwi": 0,
-            "mode": "multi", "labels": labels, "want_end": want_end}
+            "mode": "multi", "labels": labels, "want_end": want_end, "endmarker_kind": rng.choice(ENDKINDS)}
 
 
 def shrink_cases(case):
